@@ -61,6 +61,22 @@ def script_strategy():
     })
 
 
+def stash_strategy(tier):
+    """Dense variant for held-and-re-emitted Event objects: 1-2 entities, immediate handlers only, every behaviour likely to hold or
+    flush, and a script that pauses often (so many resumes happen while Event objects are held outside the heap)."""
+    dense = st.fixed_dictionaries({
+        "control": st.just(True), "trace": st.booleans(), "evtrace": st.just(False), "hooks": st.booleans(),
+        "pauses": st.lists(st.integers(1, 25), min_size=2, max_size=8), "hookbps": st.just([]),
+        "bps": st.lists(bp_strategy(), max_size=1),
+        "actions": st.lists(st.one_of(st.tuples(st.just("step"), st.integers(1, 3)).map(list), st.just(["resume"])), min_size=4, max_size=16),
+    })
+    return st.fixed_dictionaries({
+        "prog": program_strategy(tier=tier, procs=False, futures=False, cancels=False, hooks=False, max_entities=2, past=False,
+                                 jitter=False, stash=True),
+        "end": st.sampled_from([None, None, 6, 60]), "endj": st.just(0), "obs": dense,
+    })
+
+
 def observe_strategy(procs):
     def s(tier):
         return st.fixed_dictionaries({
@@ -402,6 +418,9 @@ OBLIGATIONS = [
     Obligation("observe-imm", observe_strategy(False), execute_observe("observe-imm"), {"quick": 2500, "thorough": 100000}, RULE),
     Obligation("observe-proc", observe_strategy(True), execute_observe("observe-proc"), {"quick": 2500, "thorough": 100000},
                "same with generator handlers, futures and combinators"),
+    Obligation("observe-stash", stash_strategy, execute_observe("observe-stash"), {"quick": 2000, "thorough": 80000},
+               "dense variant: 1-2 entities whose immediate handlers hold received Event objects and re-emit them later (as queues do with "
+               "payloads), driven by scripts with 2-8 pause requests and 4-16 step(1..3)/resume actions; same oracle; non-trivial as above"),
     Obligation("reset", reset_strategy, execute_reset, {"quick": 2000, "thorough": 80000},
                "stateless immediate-handler programs (no hooks, no cancellation), run to completion or to an EventCountBreakpoint, then "
                "reset() + run() once or twice; the (time, entity, kind) delivery sequence must equal the plain run's; non-trivial = the "
